@@ -1,5 +1,6 @@
 pub mod engine;
 pub mod gen;
+pub mod io;
 pub mod oracle;
 pub mod props;
 pub mod refmodel;
